@@ -7,7 +7,7 @@ from genjax._src.core.pytree import Closure
 from verif.engine import Ob
 
 LEVEL = "model_checking"
-BOUNDS = {"functions": "4 JAX functions with 2-4 record points / tags: straight-line, record point whose callable closes over an argument, record inside arithmetic with array values, nested record points (a recorded callable that itself records)",
+BOUNDS = {"functions": "5 JAX functions with 2-5 record points / tags: straight-line, untagged record points interleaved with tagged ones and a repeated tag, record point whose callable closes over an argument, record inside arithmetic with array values, nested record points (a recorded callable that itself records)",
           "checks": "final_retval, every frame's args and local return value, remix at every frame with fresh symbolic arguments (final value and the re-recorded later frames), pointer range of jump/fwd/bwd (structural)"}
 ASSUMPTIONS = ["frame count, order, tags and pointer ranges are static Python structure: evaluated directly per function (structural side checks, compared as constants inside the obligation)"]
 OUTSIDE = ["record points under lax control flow (the CPS interpreter does not look inside sub-jaxprs)"]
@@ -126,5 +126,36 @@ def obligations(tier, seed):
         lhs.append(dbg.jump("outer").remix(p).final_retval); rhs.append((p + 2.0) * 3.0 - 1.0)
         return lhs, rhs
 
+    # untagged record points (rec(g) / tag(v) with the default tag) interleaved with tagged ones, and a tag used twice:
+    # jump(tag) must land on a frame that carries the tag (which one of several frames with the same tag is not specified and not asserted)
+    def f4(x, y):
+        a = rec(lambda u, v: u + v)(x, y)
+        b = rec(lambda u: u * 2.0, "dbl")(a)
+        c = tag(b - x)
+        d = rec(lambda u, v: u * v, "prod")(c, y)
+        e = rec(lambda u: u + 1.0, "dbl")(d)
+        return e
+
+    def o4(x, y, p, q):
+        dbg = time_machine(f4)(x, y)
+        c = 2.0 * (x + y) - x
+        lhs, rhs = [dbg.final_retval], [c * y + 1.0]
+        names = []
+        d = dbg
+        for _ in range(len(dbg.sequence)):
+            names.append(d.frame()[0])
+            d = d.fwd()
+        lhs.append(jnp.int32(len(dbg.sequence))); rhs.append(jnp.int32(len(names)))
+        for tg in ("prod", "dbl"):
+            j = dbg.jump(tg)
+            lhs.append(jnp.int32(0 <= j.ptr < len(names) and names[j.ptr] == tg)); rhs.append(jnp.int32(1))
+            lhs.append(jnp.int32(j.frame()[0] == tg)); rhs.append(jnp.int32(1))
+        _, fp = dbg.jump("prod").frame()
+        lhs += [fp.args, fp.local_retval]; rhs += [(c, y), c * y]
+        lhs.append(dbg.jump("prod").remix(p, q).final_retval); rhs.append(p * q + 1.0)
+        return lhs, rhs
+
+    obs.append(Ob("C31/untagged-and-repeated-tags/f4", o4, (F(1.5), F(-0.5), F(2.0), F(0.25)),
+                  note="untagged record points before tagged ones and a repeated tag: jump(tag) lands on the frame carrying the tag; its args / local value / remix are that call's"))
     obs.append(Ob("C31/nested-records/f3", o3, (F(1.5), F(-2.0)), note="a recorded callable that itself records: frames in execution order, remix at inner and outer"))
     return obs
